@@ -327,6 +327,15 @@ def c10(case, rec=None):
                     ep = lab["explicit_padding"]
                     bucket = "explicit-pad-exceeds-skirt" if (ep[0] + ep[2] > needed_total) else "general"
                     raise Violation("C10/artefact/bottom/%s" % bucket, "%s: bottom pad %d and %d rows read end at row %d, the receptive field ends at row %d" % (where, pb, E, a + E, r1), case)
+    # third sentence of the property: no row of a rolling buffer is overwritten before its last consumer stripe has read it - the per-byte row tags of the
+    # C03 walk decide it; only findings on an operand that is a cascade rolling buffer belong to C10
+    from props import c03
+
+    try:
+        c03.check_case(case, None, compiled=(art, res))
+    except Violation as v:
+        if "ifm-rolling-buffer" in v.tags:
+            raise Violation("C10/artefact/rolling-buffer/" + v.key.split("/", 1)[1], v.message if hasattr(v, "message") else str(v), case)
     if rec is not None and checked:
         rec.cls("artefact-stripes-checked")
         if multi:
